@@ -368,7 +368,7 @@ def gen_cases(ctx, n_random, boundary_fraction, always_core=True):
                         allb.append((enc, ver, kind, sp, off))
     k = int(len(allb) * boundary_fraction)
     for enc, ver, kind, sp, off in (r.sample(allb, k) if k < len(allb) else allb):
-        second = r.choice([None, None] + CORE)
+        second = r.choice([None, None] + CORE) if kind != "name" else None
         evs = boundary_case(enc, ver, kind, sp, off, second)
         if kind == "comment":
             evs[0] = ("M", clean_comment(evs[0][1]))
@@ -432,7 +432,13 @@ def evaluate(ctx, cases, impl, model):
     rc_m, res_m, raw_m = core.run_lines_parallel(model, lines) if model else (0, {}, "")
     corr, orc = [], []
     if rc_i != 0:
-        orc.append({"case": "(process)", "what": "implementation driver exited with status %d: %s" % (rc_i, raw_i[-300:]), "known": None})
+        # a crash loses the rest of its chunk: re-run the scripts without a result one per process, so that
+        # only the scripts that really kill the driver are reported
+        missing = [l for l in lines if l.split(" ", 1)[0] not in res_i][:1500]
+        from concurrent.futures import ThreadPoolExecutor
+        with ThreadPoolExecutor(core.NPROC) as ex:
+            for rc1, r1, raw1 in ex.map(lambda l: core.run_lines(impl, l + "\n", 120), missing):
+                res_i.update(r1)
     if model and rc_m != 0:
         corr.append({"case": "(process)", "impl": "", "model": "model driver exited with status %d: %s" % (rc_m, raw_m[-300:])})
     for cid, (cls, enc, ver, evs, line) in meta.items():
@@ -441,7 +447,7 @@ def evaluate(ctx, cases, impl, model):
         ctx.count("class:" + cls)
         ri = res_i.get(cid)
         if ri is None or ri.count("|") < 3:
-            orc.append({"case": line, "what": "no result from the implementation (crash?): %r" % (ri,), "known": None})
+            orc.append({"case": line, "what": "the driver died on this script (crash / memory corruption in the serializer): %r" % (ri,), "known": None})
             continue
         new, newp, old, oldp = ri.split("|", 3)
         representable, kcls = classify(enc, ver, evs)
@@ -520,9 +526,9 @@ def legacy_class(enc, ver, evs):
         return "K-new-3"
     if not v11:
         for e in evs:
-            if e[0] == "T" and 13 in e[1]:
+            if e[0] == "T" and any(u in (13, 0x85, 0x2028) for u in e[1]):
                 return "K-new-5"
-            if e[0] == "S" and any(u in (9, 10, 13) for an, av in e[2] for u in av):
+            if e[0] == "S" and any(u in (9, 10, 13, 0x85, 0x2028) for an, av in e[2] for u in av):
                 return "K-new-5"
     for e in evs:
         if e[0] == "C" and any(not enc_can(enc, u) for u in e[1]):
@@ -539,6 +545,9 @@ def run(ctx):
         "the Writer below the staging buffers (XalanOutputStreamPrintWriter/XalanStdOutputStream and the Xerces transcoders) is not modelled: UTF-8 bytes pass through, UTF-16 is BOM + little-endian units, ISO-8859-1/US-ASCII map unit n to byte n (checked byte-exactly by the correspondence)",
         "no indentation, no DOCTYPE, standalone absent (C08 territory)",
     ]
+    for fn in os.listdir(os.path.join(core.OUT, "C04")):
+        if fn.startswith("replay_"):
+            os.remove(os.path.join(core.OUT, "C04", fn))   # stale replays of earlier runs
     ok_lib, liblog = core.build_lib("plain")
     if not ok_lib:
         ctx.broken.append("library does not build from the working tree: " + liblog[-500:])
